@@ -35,8 +35,10 @@ HARNESS_SRC = os.path.join(ROOT, "harness")
 # with another tree the harness is built in its own directory (Cargo.toml with the other paths), and case
 # files, replays and evidence go to out/alt/ so that such an experiment never overwrites what a
 # registered run against /repo wrote
-OUT = os.path.join(ROOT, "out") if REPO == "/repo" else os.path.join(ROOT, "out", "alt")
-HARNESS = HARNESS_SRC if REPO == "/repo" else os.path.join(ROOT, "out", "harness_alt")
+# (SLT_ALT_TAG keeps several such experiments apart so that they can run side by side)
+ALT = "alt" + os.environ.get("SLT_ALT_TAG", "")
+OUT = os.path.join(ROOT, "out") if REPO == "/repo" else os.path.join(ROOT, "out", ALT)
+HARNESS = HARNESS_SRC if REPO == "/repo" else os.path.join(ROOT, "out", "harness_" + ALT)
 EVID = os.path.join(ROOT, "evidence") if REPO == "/repo" else os.path.join(OUT, "evidence")
 os.makedirs(EVID, exist_ok=True)
 MODEL_BIN = os.path.join(LEAN, ".lake", "build", "bin", "sltmodel")
